@@ -269,7 +269,7 @@ func runWidth1(m *Model, r *RuleResult) {
 		}
 		switch x := v.(type) {
 		case *ssa.Call:
-			if b, ok := x.Call.Value.(*ssa.Builtin); ok && b.Name() == "max" {
+			if minMaxKind(&x.Call) == "max" {
 				for _, a := range x.Call.Args {
 					if dominates(a, n, depth+1) {
 						return true
@@ -365,7 +365,7 @@ func runWidth1(m *Model, r *RuleResult) {
 						call, isCall := r2.(*ssa.Call)
 						isMax := false
 						if isCall {
-							if b, ok := call.Call.Value.(*ssa.Builtin); ok && b.Name() == "max" {
+							if minMaxKind(&call.Call) == "max" {
 								isMax = true
 							}
 							// a helper of the package that max-reduces its value parameter into the cell m[k] of its map parameter
@@ -433,8 +433,7 @@ func maxReducesParamIntoCell(c *ssa.Function, call *ssa.Call, v ssa.Value) bool 
 		if !ok {
 			return false
 		}
-		b, ok := mc.Call.Value.(*ssa.Builtin)
-		if !ok || b.Name() != "max" {
+		if minMaxKind(&mc.Call) != "max" {
 			return false
 		}
 		hasOld, hasParam := false, false
